@@ -106,7 +106,7 @@ class Ctx:
         json.dump({'property': s.prop, 'key': full, 'what': what, 'seed': s.seed, 'tier': s.tier, 'witness': witness}, open(path, 'w'), indent=1, default=str)
         s.viol[full] = (what, path); return True
     def inconc(s, why):
-        s.inconclusive.append(str(why)[:500])
+        w = str(why); s.inconclusive.append(w if len(w) <= 600 else w[:150] + ' ... ' + w[-450:])
     # ---- finish
     def finish(s, min_evaluations=1, min_distinct=2, max_inconclusive_frac=0.05):
         wall = round(time.time() - s.t0, 2)
@@ -147,7 +147,8 @@ class Part:
     def observe(s, name, item=None, cap=10):
         o = s.obs.setdefault(name, {'count': 0, 'examples': []}); o['count'] += 1
         if item is not None and len(o['examples']) < cap and item not in o['examples']: o['examples'].append(item)
-    def inconc(s, why): s.inconclusive.append(str(why)[:500])
+    def inconc(s, why):
+        w = str(why); s.inconclusive.append(w if len(w) <= 600 else w[:150] + ' ... ' + w[-450:])
     def count(s, k, n=1): s.counters[k] = s.counters.get(k, 0) + n
 
 def pmap(fn, items, nproc):
